@@ -70,9 +70,16 @@ def r1_order(program, rep):
     inst = qual(fn)
     fl = Flow(fn)
     cfg = fl.cfg
-    loops = [n for n in ast.walk(fn) if isinstance(n, ast.For) and
-             "application_map" in unparse(n.iter)]
-    if len(loops) != 1:
+    # the per-binary loop: the outermost loop the start packet is sent from
+    ffs_ = calls_in(fn, "_send_ffs")
+    loops = []
+    if len(ffs_) == 1:
+        p_ = getattr(ffs_[0], "_parent", None)
+        while p_ is not None and p_ is not fn:
+            if isinstance(p_, (ast.For, ast.While)):
+                loops = [p_]
+            p_ = getattr(p_, "_parent", None)
+    if len(loops) != 1 or not isinstance(loops[0], ast.For):
         raise AnalysisError("flood_fill_aplx: per-binary loop not found")
     lp = loops[0]
     head = cfg.loop_head[id(lp)]
@@ -131,8 +138,10 @@ def r1_order(program, rep):
         src = chain(cl.iter)
         ds = fl.reaching(src, cfg.loop_head[id(cl)]) if src else []
         tv = chain(lp.target.elts[1])
-        okc = len(ds) == 1 and unparse(ds[0].value) == \
-            "regions.compress_flood_fill_regions(%s)" % tv and \
+        okc = len(ds) == 1 and isinstance(ds[0].value, ast.Call) and \
+            call_name(ds[0].value)[0] == "compress_flood_fill_regions" and \
+            len(ds[0].value.args) == 1 and not ds[0].value.keywords and \
+            chain(ds[0].value.args[0]) == tv and \
             [chain(a) for a in sites["_send_ffcs"].args[:2]] == \
             [chain(t) for t in cl.target.elts]
     rep.check(okc, "C09-R1", inst, "core selections are sent in the order "
